@@ -37,6 +37,11 @@ func debugf(f string, a ...any) {
 func CheckSession(c Case) (vs hx.Vs, classes []string) {
 	sqlparser.SetDefaultDialect(pgdialect.NewPostgreSQLDialect())
 	w := fix.TheWorld()
+	c, rerr := resolve(c)
+	if rerr != nil {
+		vs.Add("harness:resolve", "%v", rerr)
+		return
+	}
 	tabs := tables(c)
 	yaml := pgprog.SchemaYAML(tabs)
 	s, err := pgsess.Start(pgsess.Config{SchemaYAML: yaml, KeyStore: w.KS, ClientID: w.Alice, Tables: pgprog.Defs(tabs)})
@@ -58,7 +63,15 @@ func CheckSession(c Case) (vs hx.Vs, classes []string) {
 	if len(c.U) > 0 {
 		st := pgprog.Step{Op: "insert", Table: 1}
 		for i, u := range c.U {
-			st.Rows = append(st.Rows, []pgprog.Val{{B: []byte(strconv.Itoa(i + 1))}, {B: []byte(strconv.Itoa(u.Ref))}, {B: []byte(u.Tag)}})
+			row := []pgprog.Val{{B: []byte(strconv.Itoa(i + 1))}, {B: []byte(strconv.Itoa(u.Ref))}, {B: []byte(u.Tag)}}
+			if c.UCol != nil {
+				v := pgprog.Val{Null: true}
+				if u.S != nil {
+					v = *u.S
+				}
+				row = append(row, v)
+			}
+			st.Rows = append(st.Rows, row)
 		}
 		rep, err := s.Simple(pgprog.Render(tabs, st).SQL)
 		if inconclusive(err, "insert into u") {
@@ -138,6 +151,22 @@ func CheckSession(c Case) (vs hx.Vs, classes []string) {
 			}
 			if !bytes.Equal(sv.B[:33], refIndex(w, owner, r.S.B)) {
 				vs.Add("stored-index-differs-from-reference", "row %d: stored index %x is not 0x7f||HMAC-SHA256(key(%s), %.40q)", i+1, sv.B[:33], owner, r.S.B)
+			}
+		}
+	}
+	if c.uSearch() {
+		ustored := s.DB.Store.Rows("u")
+		if len(ustored) != len(c.U) {
+			vs.Add("stored-row-count", "table u stores %d rows, %d were inserted", len(ustored), len(c.U))
+			return
+		}
+		for i, u := range c.U {
+			if u.S == nil || u.S.Null || len(u.S.B) == 0 || len(ustored[i]) < 4 {
+				continue
+			}
+			sv := ustored[i][3]
+			if sv.Null || len(sv.B) <= 33 || !bytes.Equal(sv.B[:33], refIndex(w, uOwnerOf(c), u.S.B)) {
+				vs.Add("stored-index-differs-from-reference:joined-table", "u row %d: the stored value (%d bytes) does not start with 0x7f||HMAC-SHA256(key(%s), %.40q)", i+1, len(sv.B), uOwnerOf(c), u.S.B)
 			}
 		}
 	}
@@ -333,11 +362,12 @@ func CheckSession(c Case) (vs hx.Vs, classes []string) {
 
 func TestSearchSessions(t *testing.T) {
 	R.Rule("TestSearchSessions", "whole PostgreSQL sessions through acra's real proxy (internal/pgsess): table t(id, s searchable, p, n) + u(id, ref, tag); the 1-12 generated plaintexts (as TestRewritePG) are INSERTed in 1..n statements over the simple or extended protocol (text/binary parameters, declared or inferred types, literal spellings, casts), then one SELECT id, s FROM t [AS q] [JOIN u ..] WHERE cond (condition forms as TestRewritePG; placeholders in text and binary format, mixed with placeholders on plain columns) is executed; the typed fake database evaluates the rewritten condition literally. Oracles: every stored value starts with the reference index of its plaintext; multiset of returned ids = model; every returned row carries the plaintext (decoded by an independent codec as the described type); no plaintext marker of any stored or searched value in the bytes the database received; after swapping the indexes of two rows with different plaintexts in the store, the owner receives neither plaintext for them. Non-trivial = a searched value is present AND some row is excluded. I/O deadlines = inconclusive")
-	hx.Checks(40, 2000)
+	hx.Checks(70, 2000)
 	rapid.Check(t, func(rt *rapid.T) {
 		c := genCase(rt, genOpts{session: true})
 		vs, extra := CheckSession(c)
-		R.Seen("TestSearchSessions", c, nontrivial(c), uniq(append(classesOf(c, "pg-session"), extra...))...)
+		rc, _ := resolve(c)
+		R.Seen("TestSearchSessions", c, nontrivial(rc), uniq(append(classesOf(rc, "pg-session"), extra...))...)
 		R.Report(rt, "TestSearchSessions", c, vs)
 	})
 }
